@@ -99,7 +99,10 @@ structure Shape where
   des : Option Nat
 deriving Repr
 
-/-- the first statements: ports of the implementation, its output lines, the designated cell -/
+/-- the first statements: ports of the implementation, its output lines, the designated cell.  When the walk from the
+    first output ends at a PORT of the implementation (feed-through cell `input A -> fork -> output X`) the implementation
+    has no designated cell (repair of D32: a port cannot stand for the instance, its line into the implementation is
+    replaced by the instance's own line) -/
 def implShape (m : NNet) : Option Shape :=
   let inPorts := m.net.io.filter fun p => (m.net.node p).ins.length == 0
   let outPorts := m.net.io.filter fun p => (m.net.node p).ins.length != 0
@@ -108,7 +111,8 @@ def implShape (m : NNet) : Option Shape :=
   let outLines := outL.filterMap id
   let d0 : Option (Option Nat) := match outLines.head? with
     | none => some none
-    | some l0 => (walkDesignated m (m.net.nodes.size + 1) (m.net.line l0).driver).map some
+    | some l0 => (walkDesignated m (m.net.nodes.size + 1) (m.net.line l0).driver).map fun n =>
+        if m.net.io.contains n then none else some n             -- `None if n in ios else n` (repair of D32)
   match d0 with
   | none => none
   | some d0 =>
